@@ -30,6 +30,7 @@ def c05(chk, tier):
     rules_state.r_reset(P(), chk)
     rules_state.r_engconf(P(), chk)
     rules_mem.r_init(P(), chk)
+    rules_mem.r_memsize(P(), chk)             # a clear that covers a fraction of the objects leaves allocator history in the rest
     rules_state.r_srcconst(P(), chk)
     rules_state.r_incdec(P(), chk)
 
@@ -48,6 +49,7 @@ def c04(chk, tier):
     rules_sink.r_rawtoken(P(), chk)
     rules_esc.r_escaper_complete(P(), chk, formats=("html", "odf", "latex"))
     rules_level.r_level(P(), chk)
+    rules_level.r_baselevel(P(), chk)
     rules_sink.r_sink_latex(P(), chk)
     rules_balance.r_balance(P(), chk)
     rules_anchor.r_listbound(P(), chk, "R-NOTELIST")      # no note text is lost from the relocated lists
@@ -76,7 +78,9 @@ def c01(chk, tier):
         rules_mem.r_uaf(P(cfg), chk)
         rules_mem.r_hashkey(P(cfg), chk)
         rules_mem.r_gotoinit(P(cfg), chk)
+        rules_mem.r_memsize(P(cfg), chk)
     rules_mem.r_own(P("nopool"), chk)
+    rules_misc.r_pushpop(P(), chk)            # the guard stack holds file_path->str, freed right after: an unbalanced push is a dangling pointer
 
 
 def c19(chk, tier):
@@ -153,6 +157,7 @@ def c14(chk, tier):
     rules_esc.r_escpair(P(), chk)
     rules_dispatch.r_sibling_outline(P(), chk)
     rules_level.r_level(P(), chk)
+    rules_level.r_baselevel(P(), chk)
     rules_mem.r_stalelen(P(), chk)      # the import path hands back text and length that belong together
     lalr.r_opml_stack(P(), chk)         # the import parser's stack holds every outline the exporter can nest
 
@@ -204,6 +209,7 @@ def c08(chk, tier):
     rules_balance.r_balance(P(), chk, units={"html.c", "opendocument-content.c"})
     rules_sink.r_attrbreak(P(), chk)
     rules_sink.r_eraseguard(P(), chk)
+    rules_level.r_baselevel(P(), chk)         # heading levels below 1 leave <outline> elements open
     # every tag the writers print goes through d_string_append_printf -> vasprintf: a fragment cut short loses its `>`
     rules_dstr.r_fmtbound(P(), chk)
     rules_dstr.r_valist(P(), chk)
